@@ -2,6 +2,7 @@
    find_root (Model/DecayTime.v). *)
 From Coq Require Import Reals ZArith QArith Qreals List Bool Lra Lia.
 From Coquelicot Require Import Coquelicot.
+From Interval Require Import Tactic.
 From PT Require Import Dec Py IExpr ActEval DecayTime.
 Import ListNotations.
 Open Scope R_scope.
@@ -361,4 +362,53 @@ Proof.
     apply (Rmult_le_reg_r (- derR data To x)); [lra|].
     replace (- ((sumR data To x - target) / derR data To x) * - derR data To x) with (sumR data To x - target) by (field; lra).
     lra.
+Qed.
+
+(* ------------------------------------------------------------------ the source as it stands
+   (the two flags are regenerated from /repo on every run) *)
+From PT.Gen Require ActivationDat.
+Definition decay_time_cur : list (R * R) -> R -> R -> res (dt R) :=
+  decay_time_core R numR ActivationDat.dt_early_exit_vs_target ActivationDat.dt_df_rest_factor.
+Lemma cur_early_exit : ActivationDat.dt_early_exit_vs_target = false.  Proof. reflexivity. Qed.
+Lemma cur_df : ActivationDat.dt_df_rest_factor = false.  Proof. reflexivity. Qed.
+
+(* "returns 0 exactly when the activity at removal is already at or below the target" *)
+Theorem zero_iff_already_below : forall rem To target f0,
+  f R numR (data_at rem To) To target 0 = Ok f0 ->
+  (decay_time_cur (data_at rem To) To target = Ok RetZero <-> true_A rem 0 <= target).
+Proof.
+  intros rem To target f0 Hf. unfold decay_time_cur. rewrite cur_early_exit.
+  rewrite (zero_iff_already_below_repaired _ _ _ _ f0 Hf), sumR_true_A. tauto.
+Qed.
+
+(* "df is the derivative of f" *)
+Theorem df_is_derivative : forall data To target t v,
+  df R numR ActivationDat.dt_df_rest_factor data To t = Ok v -> is_derive (fR data To target) t v.
+Proof. intros data To target t v. rewrite cur_df. apply df_is_derivative_repaired. Qed.
+
+(* REFUTED at full strength, still: "the answer does not depend on which rest times were requested" and
+   "raises RuntimeError rather than ...".  Over the reals f is the same function for every rest list
+   (f_independent_of_rest_list), but the code evaluates exp(La (To - t)) at t = 0 and exp overflows above
+   709.78: one product of 1 uCi with a half-life of 3.6 s, target 2 uCi: with rest_times = [2] the call
+   raises OverflowError, with rest_times = [0] it returns 0. *)
+Theorem rest_list_independence_refuted :
+  exists rem To target, physical_rem rem /\ 0 < target /\
+    decay_time_cur (data_at rem To) To target = Err OtherErr /\
+    decay_time_cur (data_at rem 0) 0 target = Ok RetZero.
+Proof.
+  exists [(1, / 1000)], 2, 2.
+  split; [repeat constructor; simpl; lra|]. split; [lra|].
+  unfold decay_time_cur. rewrite cur_early_exit. split.
+  - unfold decay_time_core, f, data_at. simpl map. simpl fsum. unfold sexp, dec, lt. cbn [nlt numR].
+    destruct (Rlt_dec _ _) as [L|L]; [reflexivity|]. exfalso. apply L. clear L.
+    unfold q. simpl. rewrite Q2R_zero. unfold EXPMAX, Q2R. simpl.
+    replace (- (ln 2 / / 1000 * (0 - 2))) with (2000 * ln 2) by (field; lra). interval.
+  - unfold decay_time_core, f, data_at. simpl map. simpl fsum. unfold sexp, dec, lt. cbn [nlt numR].
+    destruct (Rlt_dec _ _) as [L|L].
+    + exfalso. unfold q in L. simpl in L. rewrite Q2R_zero in L.
+      replace (- (ln 2 / / 1000 * (0 - 0))) with 0 in L by (field; lra). unfold EXPMAX, Q2R in L. simpl in L. lra.
+    + cbn [rbind]. cbn [nlt numR]. unfold q. simpl nQ. rewrite ?Q2R_zero.
+      destruct (Rlt_dec 0 _) as [P|P]; cbn [negb]; [|reflexivity]. exfalso.
+      simpl in P. replace (- (ln 2 / / 1000 * (0 - 0))) with 0 in P by (field; lra).
+      replace (- 0 / / 1000) with 0 in P by (field; lra). rewrite Rpower_O, exp_0 in P by lra. lra.
 Qed.
